@@ -63,6 +63,27 @@ pub broadcast proof fn lemma_has_req_new<Req>(s: Seq<ClientMessage<Req>>, w: Cli
 {
     assert(is_req_for(s.push(w)[s.len() as int], id));
 }
+/// the effect log was only extended by deliveries of RpcError::Channel errors
+pub open spec fn channel_errors_only<Resp>(a: Seq<Effect<Result<Resp, RpcError>>>, b: Seq<Effect<Result<Resp, RpcError>>>) -> bool {
+    &&& a.len() <= b.len()
+    &&& forall|i: int| 0 <= i < a.len() ==> #[trigger] b[i] == a[i]
+    &&& forall|i: int| a.len() <= i < b.len() ==> ((#[trigger] b[i]) matches Effect::Deliver { value: Err(RpcError::Channel(_)), .. })
+}
+impl<E> ChannelError<E> {
+    /// `impl Clone for ChannelError` (clones the Arc): same value
+    #[verifier::external_body]
+    pub fn clone(&self) -> (r: Self) ensures r == *self { unimplemented!() }
+}
+impl<Res> InFlightRequests<Result<Res, RpcError>> {
+    /// ASSUMED (R11; bounded stand-in only): `complete_all_requests(|| Err(RpcError::Channel(e)))` consumed to the
+    /// end delivers that error to every in-flight call, and leaves no entry and no timer.
+    #[verifier::external_body]
+    pub fn complete_all_requests__assumed(&mut self, e: &ChannelError<TErr>, Tracked(fx): Tracked<&mut Fx<Result<Res, RpcError>>>)
+        requires old(self).wf(),
+        ensures final(self).wf(), final(self)@.dom().len() == 0, final(self).timers() =~= Map::<delay_queue::Key, delay_queue::Entry>::empty(),
+            channel_errors_only(old(fx).log, final(fx).log),
+    { unimplemented!() }
+}
 pub broadcast group group_wire { lemma_has_req_push, lemma_has_req_new }
 pub broadcast proof fn lemma_remove_len(m: Map<u64, CEntry>, k: u64)
     ensures #[trigger] m.remove(k).dom().len() <= m.dom().len()
@@ -344,6 +365,43 @@ def dispatch_parts():
                 r is Pending ==> (final(self).in_flight_requests@.dom().len() == 0 || final(self).in_flight_requests.timers_reg()), // @C02,C05
               ''',
               pre='broadcast use lemma_remove_len, lemma_insert_len;'),
+            F('shut_down_with_terminal_error', fx=True, tags='C09', attrs='#[verifier::exec_allows_no_decreases_clause]',
+              rules=[
+                  Rule('R11:complete-all', r'for span in self\s*\.in_flight_requests\s*\.complete_all_requests\(\|\| Err\(RpcError::Channel\(e\.clone\(\)\)\)\)\s*\{\s*\}',
+                       'self.in_flight_requests.complete_all_requests__assumed(&e, Tracked(fx));', 1, where='body', flags=re.M | re.S,
+                       why='R11 cut: `complete_all_requests` returns `impl Iterator` over a draining map with a closure (outside Verus); replaced by an ASSUMED contract (see trusted base)'),
+              ],
+              requires='''
+                old(self).in_flight_requests.wf(), // @core
+              ''',
+              ensures='''
+                // C14/C09: the transport is not touched again after the failure that led here
+                final(self).transport == old(self).transport && final(self).canceled_requests == old(self).canceled_requests && final(self).config == old(self).config, // @C09,C14
+                // C09: only connection errors are delivered -- no call reports success without a reply
+                channel_errors_only(old(fx).log, final(fx).log), // @C09
+                // C09: when it completes, the request queue is closed and drained and nothing is in flight: every outstanding call was failed
+                r is Ready ==> final(self).pending_requests@.drained && final(self).pending_requests@.closed_by_rx && final(self).in_flight_requests@.dom().len() == 0, // @C09
+                r is Pending ==> final(self).pending_requests@.reg && final(self).pending_requests@.closed_by_rx, // @C02
+              ''',
+              hints=[
+                  ('self.in_flight_requests.complete_all_requests__assumed(', '''
+                      let ghost g_base = fx.log.len();
+                      let ghost mut g_open: nat = 0;
+                  '''),
+                  ('}) => {', '''
+                      // ghost bookkeeping tied to the dequeue: one more queued caller whose receiver is still open
+                      proof { if !response_completion.seen_closed() { g_open = g_open + 1; } }
+                  '''),
+              ],
+              loops=['''
+                invariant
+                    self.transport == old(self).transport && self.canceled_requests == old(self).canceled_requests && self.config == old(self).config, // @core
+                    // C09: every queued caller with an open receiver has been delivered the error (one delivery per such dequeue)
+                    fx.log.len() == g_base + g_open, // @C09
+                    self.pending_requests@.closed_by_rx, // @C09
+                    self.in_flight_requests@.dom().len() == 0, // @C09
+                    channel_errors_only(old(fx).log, fx.log), // @C09
+              '''], loops_optional=False),
             F('run', fx=True, tags='C09,C10', attrs='#[verifier::exec_allows_no_decreases_clause]',
               requires='old(self).inv(), // @core',
               ensures='''
@@ -363,6 +421,24 @@ def dispatch_parts():
     ]
 
 
+
+def guard_parts():
+    return [
+        TypeItem(SRC, 'struct', 'ResponseGuard', rules=[
+            Rule('R5:guard-rx', r"&'a mut oneshot::Receiver<Result<Resp, RpcError>>", "&'a mut guard_models::Receiver<Result<Resp, RpcError>>", 1, why='prelude model of the oneshot receiver'),
+            Rule('R5:guard-canc', r"&'a RequestCancellation", "&'a guard_models::RequestCancellation", 1, why='prelude model of the cancellation sender'),
+        ]),
+        Impl("impl<'a, Resp> ResponseGuard<'a, Resp>", fx_type='GFx', qual='ResponseGuard', parts=[
+            Fn(SRC, r"impl<Resp> Drop for ResponseGuard<'_, Resp>", 'drop', fx=True, tags='C03',
+               ensures='''
+                 // C03: the receiver is closed *before* the cancellation is queued (so a dispatch that misses an
+                 // early cancellation sees the receiver closed), and a cancellation is queued iff the guard is armed
+                 old(self).cancel ==> final(fx).log == old(fx).log.push(GEffect::CloseRx { chan: old(self).response.chan() }).push(GEffect::CancelMsg { id: old(self).request_id }), // @C03
+                 !old(self).cancel ==> final(fx).log == old(fx).log.push(GEffect::CloseRx { chan: old(self).response.chan() }), // @C03
+               '''),
+        ]),
+    ]
+
 ACCESSOR_GUARDS = [
     # (fn name, regex its body must match) -- R3 is only sound while the accessor is the bare projection
     ('in_flight_requests', r'\{\s*self\.as_mut\(\)\.project\(\)\.in_flight_requests\s*\}'),
@@ -373,8 +449,8 @@ ACCESSOR_GUARDS = [
 
 
 def unit():
-    return Unit('client', prelude=['base.rs', 'time.rs', 'delay_queue.rs', 'oneshot_tx.rs', 'transport.rs', 'server_error.rs', 'client_queues.rs', 'cancellations.rs'],
-                parts=client_table.parts() + dispatch_parts(), rules=RULES,
-                fx_fns=client_table.FX_CALLS + [r'\.complete\(', r'self\.pump_read__closure\(', r'\.pump_read\(', r'\.pump_write\(', r'\.poll_write_request\(', r'\.poll_expired\((?=cx, \|\|)'],
-                fx_prims=[r'response_completion\.send\('], fx_type='Fx<Res>',
+    return Unit('client', prelude=['base.rs', 'time.rs', 'delay_queue.rs', 'oneshot_tx.rs', 'transport.rs', 'server_error.rs', 'client_queues.rs', 'cancellations.rs', 'client_guard.rs'],
+                parts=client_table.parts() + dispatch_parts() + guard_parts(), rules=RULES,
+                fx_fns=client_table.FX_CALLS + [r'\.complete\(', r'self\.pump_read__closure\(', r'\.pump_read\(', r'\.pump_write\(', r'\.poll_write_request\(', r'\.shut_down_with_terminal_error\(', r'\.poll_expired\((?=cx, \|\|)'],
+                fx_prims=[r'response_completion\.send\(', r'self\.response\.close\(', r'self\.cancellation\.cancel\('], fx_type='Fx<Res>',
                 accessor_guards=[(SRC, IMPL, n, rx) for n, rx in ACCESSOR_GUARDS])
